@@ -98,6 +98,8 @@ def family_sort(m, tier, add_bench, open_mod, close_mod):
     add_bench(m, path, 4, "gen_i32", consts=["-3", "10", "2", "-20"], const_ty="i32")
     add_bench(m, path, 4, "gen_char", consts=["'b'", "'a'", "'Z'"], const_ty="char", const_labels_given=["b", "a", "Z"])
     add_bench(m, path, 4, "gen_bool", consts=["true", "false"], const_ty="bool")
+    add_bench(m, path, 4, "gen_u128", consts=["340282366920938463463374607431768211455", "0", "18446744073709551616", "18446744073709551615"], const_ty="u128")
+    add_bench(m, path, 4, "gen_i128", consts=["-170141183460469231731687303715884105728", "7", "-1", "-170141183460469231731687303715884105727"], const_ty="i128")
     g2 = open_mod(m, path, 4, "B_group", group={"display": "a0 shown first by name"})
     add_bench(m, g2, 8, "only")
     close_mod(m, 4)
